@@ -317,8 +317,8 @@ impl Monitor for C13 {
     }
     fn cases(&self, tier: Tier) -> u64 {
         match tier {
-            Tier::Quick => 5_000,
-            Tier::Thorough => 150_000,
+            Tier::Quick => 40_000,
+            Tier::Thorough => 600_000,
         }
     }
     fn required_counters(&self) -> Vec<&'static str> {
